@@ -16,7 +16,7 @@ func init() {
 	Props["C01"] = Prop{
 		Title: "JSON encoder always emits one well-formed JSON object per entry, on one line",
 		Fn:    checkC01,
-		Explanation: "The encoder can emit malformed JSON only through a raw write of run-time text, an unbalanced bracket or quote, a missing or doubled separator, or a panic; each is a shape of the code and is decided for all inputs: (1) taint: every write to a jsonEncoder's buffer is a control-free constant, a numeric formatter (floats only where NaN/Inf are excluded or inside quotes), bytes of an already-escaped buffer, or goes through the escaper - anything else (e.g. time.AppendFormat output) is reported; (2) the escaper's byte table is evaluated exhaustively over all 256 byte values by abstract interpretation of its branch conditions: controls, quote and backslash are never copied raw and get their exact escape, bytes ≥ 0x80 go through decodeRune, invalid UTF-8 yields the \\ufffd escape; (3) every opener is closed on every path incl. the marshaler-error path, quotes bracket every in-string write, AppendObject saves, zeroes, closes and restores the namespace counter on every path, EncodeEntry ends with closeOpenNamespaces, optional stack, '}', line ending; (4) every encoder method establishes the element separator before its first write, ',' is written only by addElementSeparator whose no-separator byte set is evaluated over all bytes, addKey emits quote-key-quote-colon; (5) every call through an optional sub-encoder function is nil-guarded or defaulted; (6) every user sub-encoder call is followed by the wrote-nothing fallback; (7) Field.AddTo turns every marshaler error into a '<key>Error' string field and no encoder/marshaler error result is discarded anywhere. " +
+		Explanation: "The encoder can emit malformed JSON only through a raw write of run-time text, an unbalanced bracket or quote, a missing or doubled separator, or a panic; each is a shape of the code and is decided for all inputs: (1) taint: every write to a jsonEncoder's buffer is a control-free constant, a numeric formatter (floats only where NaN/Inf are excluded or inside quotes), bytes of an already-escaped buffer, or goes through the escaper - anything else (e.g. time.AppendFormat output) is reported; (2) the escaper's byte table is evaluated exhaustively over all 256 byte values by abstract interpretation of its branch conditions: controls, quote and backslash are never copied raw and get their exact escape, bytes ≥ 0x80 go through decodeRune, invalid UTF-8 yields the \\ufffd escape; (3) every opener is closed on every path incl. the marshaler-error path, quotes bracket every in-string write, the namespace counter accounts for exactly the braces still open (every encoder method explored with the counter 0 and 1 on entry and every hand-over of the encoder to user code opening 0 or 1 namespace: members and elements leave nesting and counter as found, OpenNamespace adds and counts one, EncodeEntry closes all), Clone carries context bytes, configuration, spacing and that counter, EncodeEntry ends with closeOpenNamespaces, optional stack, '}', line ending; (3b) token grammar: every path of every Add*/Append* method, addKey, OpenNamespace and EncodeEntry, explored down to its buffer writes and abstracted to tokens (structural bytes, bare scalar, escaped text, raw text, user sub-encoder call with the outcome of its wrote-nothing test, user marshaler, context, reflected value), parses as exactly one well-formed member / element / opener / entry - a key without a value or a value without quotes does not; (4) every encoder method establishes the element separator before its first write, ',' is written only by addElementSeparator whose no-separator byte set is evaluated over all bytes, addKey emits quote-key-quote-colon; (5) every call through an optional sub-encoder function is nil-guarded or defaulted; (6) every user sub-encoder call is followed by the wrote-nothing fallback; (7) Field.AddTo turns every marshaler error into a '<key>Error' string field and no encoder/marshaler error result is discarded anywhere. " +
 			"NOT decided: validity of strconv / encoding/json output (trusted), bytes written by user marshalers/sub-encoders themselves, the escaper's span bookkeeping (last/i arithmetic).",
 		Assumptions: commonAssumptions,
 	}
